@@ -249,6 +249,29 @@ def aux_facts(lin, forms):
                     out.append(lin_add(lin_add(atom(a), ln, -1), const(1)))
                     work.extend(ln[0])
                 break
+        if a and a[0] == "field" and a[2] == 0 and isinstance(a[1], tuple) and a[1] and a[1][0] == "elem" and len(a[1]) > 4 and a[1][4] is not None:
+            # (i, x) handed to a closure by `s.iter().enumerate().<consumer>(..)`: i < len(s)
+            src = lin.expand(a[1][4])
+            seen_enum = False
+            for _ in range(6):
+                if not (isinstance(src, tuple) and src and src[0] == "sym" and src[1][0] == "call" and src[1][2]):
+                    break
+                nm2 = src[1][1].split("::")[-1]
+                if nm2 == "enumerate":
+                    seen_enum = True
+                    src = lin.expand(src[1][2][0])
+                    continue
+                if nm2 in ("copied", "cloned", "by_ref", "into_iter") and not seen_enum:
+                    src = lin.expand(src[1][2][0])       # adaptors below the enumerate keep one element per element
+                    continue
+                if nm2 in ("copied", "cloned", "by_ref", "into_iter", "map") and seen_enum:
+                    src = lin.expand(src[1][2][0])
+                    continue
+                if nm2 in ("iter", "iter_mut") and seen_enum:
+                    ln = lin.len_of(lin.expand(src[1][2][0]))
+                    out.append(lin_add(lin_add(atom(a), ln, -1), const(1)))
+                    work.extend(ln[0])
+                break
         if a and a[0] == "field" and a[2] == 0 and isinstance(a[1], tuple) and a[1] and a[1][0] == "call" and len(a[1]) > 2 \
                 and a[1][1].split("::")[-1] in ("get_index_of",) and "IndexMap" in a[1][1] and a[1][2]:
             # Some(i) = map.get_index_of(k): i < len(map)
